@@ -176,6 +176,7 @@ def run(ctx):
 
     # ---- wallets ------------------------------------------------------------------------------------------------------------
     run_wallets(ctx, nets)
+    run_multisig_wallets(ctx, nets)
     run_db_encryption(ctx, nets)
     ctx.exhaustive = False
     ctx.assumptions += ['the object walk enumerates what Python exposes (__dict__ of bitcoinlib objects, containers, pickle bytes); it is an '
@@ -266,6 +267,48 @@ def run_wallets(ctx, nets):
             hit = leaks(allenc, blobs)
             if hit:
                 ctx.violation('private key material in a watch-only wallet', {'op': 'view %s' % vname, 'wallet': name, 'encodings_found': hit[:5]})
+
+
+def run_multisig_wallets(ctx, nets):
+    """multisig wallets that own one private cosigner key: the wallet-level public views and default exports"""
+    from bitcoinlib.wallets import Wallet
+    from bitcoinlib.keys import HDKey
+    rng = ctx.rng
+    uri = 'sqlite:///' + os.path.join(os.environ['BCL_DATA_DIR'], 'c16_ms_wallets.sqlite')
+    for wt in ('legacy', 'p2sh-segwit', 'segwit'):
+        seeds = [bytes(rng.randrange(256) for _ in range(32)) for _ in range(2)]
+        masters = [HDKey.from_seed(sd, witness_type=wt, multisig=True, network='bitcoin') for sd in seeds]
+        pub1 = masters[1].public_master_multisig(witness_type=wt)
+        name = 'c16_ms_' + wt.replace('-', '_')
+        w = Wallet.create(name, keys=[masters[0], pub1], sigs_required=2, witness_type=wt, network='bitcoin', db_uri=uri)
+        k = w.get_key()
+        allenc = {}
+        own = masters[0]
+        for nm, hk in (('master', own),):
+            for kn, v in secret_encodings(hk.secret, nets, (hk.depth, hk.parent_fingerprint, hk.child_index, hk.chain)).items():
+                allenc[nm + ':' + kn] = v
+        # the account-level private key of the own cosigner and the leaf keys of the first address
+        acc = own.subkey_for_path("m/45'" if wt == 'legacy' else "m/48'/0'/0'/%d'" % (1 if wt == 'p2sh-segwit' else 2))
+        for nm, hk in (('account', acc), ('leaf', acc.subkey_for_path('0/0'))):
+            for kn, v in secret_encodings(hk.secret, nets, (hk.depth, hk.parent_fingerprint, hk.child_index, hk.chain)).items():
+                allenc[nm + ':' + kn] = v
+        for history in ('same-session', 'reopened'):
+            wv = w if history == 'same-session' else Wallet(name, db_uri=uri)
+            buf = io.StringIO()
+            with contextlib.redirect_stdout(buf):
+                wv.info(detail=5)
+            views = {'Wallet.info': [buf.getvalue().encode()], 'Wallet.repr': [repr(wv).encode()], 'Wallet.as_dict': blobs_of(wv.as_dict()),
+                     'Wallet.as_json': [wv.as_json().encode()], 'Wallet.keys() repr': [repr(wv.keys()).encode()],
+                     'Wallet.wif(is_private=False)': blobs_of(wv.wif(is_private=False)), 'public_master': blobs_of(wv.public_master()),
+                     'addresslist': blobs_of(wv.addresslist())}
+            for vname, blobs in views.items():
+                ctx.evals += 1
+                ctx.count('multisig-wallet-view:' + vname)
+                ctx.nontrivial.add(hash((wt, history, vname)))
+                hit = leaks(allenc, blobs)
+                if hit:
+                    ctx.violation('private key material in a public view / default export of a multisig wallet',
+                                  {'op': 'view %s (%s)' % (vname, history), 'wallet': name, 'encodings_found': hit[:5]})
 
 
 def run_db_encryption(ctx, nets):
